@@ -14,7 +14,9 @@ AFTER_NAME = [':', ': ', ' : ', ':\n    ', ':\t']
 VALUES = [['red'], ['1px', 'solid', '#000'], ['"a;b}"'], ["'x\\'y'"], ['calc(1px + (2 * 3))'], ['10px', '20px'], ['url("a;b")'],
           ['url(a.png)', 'no-repeat'], ['a', '/', 'b'], ['1px', '-', '2px'], ['a,', 'b'], ['rgba(0, 0, 0, .5)'], ['"{"'], ['!important'],
           ['1px', '!important'], ['"a:b"'], ['f(a:b)'], ['#fff'], ['-1px'], ['no-repeat'], ['a', '+', 'b'], ['"\\""'], ['var(--x, "}")'],
-          ['1px', '*', '2'], ['"/*"'], ['1px', '2px', '3px', '4px', '5em', '6%', 'auto', 'inherit', '0'], ['a', 'b', 'c', '/', 'd', 'e', 'f', 'g']]
+          ['1px', '*', '2'], ['"/*"'],
+          # nested parentheses with colons at both depths (Sass maps, function arguments)
+          ['(small: (min: 0, max: 599px), large: 600px)'], ['(bg: darken($c, 10%), border: $c)'], ['f(g(a:b), c:d)'], ['((a:b):c)'], ['map-get((k: (x: 1)), k)', 'x:y'.replace(':', '-')], ['1px', '2px', '3px', '4px', '5em', '6%', 'auto', 'inherit', '0'], ['a', 'b', 'c', '/', 'd', 'e', 'f', 'g']]
 VALUES_WITH_COMMENT = [['x', '/* v */', 'y'], ['1px', '/* ; } */', 'solid']]
 SEMI_IN_PAREN = [['url(data:image/png;base64,aaa)'], ['url(data:x;y)', 'no-repeat'], ['f(a;b)']]
 COMMENTS = ['/* a:b; } */', '/* { */', '/**/', '/* x */', '/* ; */', '/*\n * multi\n */']
